@@ -245,6 +245,7 @@ fn judge_emitted(c: &mut Ctx, path: Path, req: &Request, m: &Materialised, fee: 
     let mut so = SigObs {
         p2pkh_verified: 0,
         p2sh_verified: 0,
+        digests: vec![],
     };
     let mut findings: Vec<Finding> = vec![];
     match em {
@@ -275,6 +276,28 @@ fn judge_emitted(c: &mut Ctx, path: Path, req: &Request, m: &Materialised, fee: 
             let tx: &Transaction = wire.as_ref().unwrap_or(tx);
             findings.extend(check_contents(&c.w, req, m, &**tx, &mut obs));
             findings.extend(check_signatures_tx(&c.w, req, m, tx, &mut so));
+            // event for the Python ZIP 244 / ZIP 243 reference: the digests the signatures were
+            // verified under must be the specification's digests for those coins
+            if c.r.has_events() && !so.digests.is_empty() && c.r.counter("sighash_events_logged") < 400 {
+                let vin: Vec<([u8; 32], u32)> = tx
+                    .transparent_bundle()
+                    .map(|b| b.vin.iter().map(|i| (*i.prevout().hash(), i.prevout().n())).collect())
+                    .unwrap_or_default();
+                if let Some(spent) = coins_in_vin_order(req, m, &vin) {
+                    let mut raw = vec![];
+                    if tx.write(&mut raw).is_ok() {
+                        c.r.count("sighash_events_logged", 1);
+                        c.r.event(&json!({
+                            "kind": "sighash",
+                            "path": path_name(path),
+                            "raw": hex::encode(&raw),
+                            "branch_id": u32::from(tx.consensus_branch_id()),
+                            "coins": spent.iter().map(|(_, c)| json!([u64::from(c.value()), hex::encode(&c.script_pubkey().0.0)])).collect::<Vec<_>>(),
+                            "inputs": so.digests.iter().map(|(i, ht, d, sc)| json!({"index": i, "hash_type": ht, "digest": hex::encode(d), "script_code": hex::encode(sc)})).collect::<Vec<_>>(),
+                        }));
+                    }
+                }
+            }
             // the library's own accounting must agree with ours
             let lib_fee = tx.fee_paid(|op| {
                 Ok::<_, zcash_protocol::value::BalanceError>(
